@@ -9,9 +9,11 @@ Line protocol of the dispatch model (C11):
                                               act: o<val> | s<i>:<val or -> | t<i>:<val or -> (send, swallow exceptions) | r | e<dest>:<etype>
   blk <i> input <initdef or u> <allowed: - or val,val,…>
   blk <i> counter <modulo or n> <initdef>
+  blk <i> fsm <nStates> <trans: - or ev:from|*:to|-,…> <enter scripts joined by |> <exit scripts> <timed: - or etype@dur, by state joined by |>
   blk <i> outfunc <v | f | c<val>>            user function: returns its argument / raises / constant
-  edge <src> <o|e|x|s|r> <dest> <etype> <filters: - or a,r,v,w,d,u,s<val>>
-  etype: prefix notation, tokens joined by `/`: 0 | e | x | n:<name> | c/<etype>/<etype>
+  edge <src> <o|e|x|s|r|nt|en<state>|ex<state>> <dest> <etype> <filters: - or a,r,v,w,d,u,s<val>>
+  etype: prefix notation, tokens joined by `/`: 0 | e | x | n:<name> | g<state> | c/<etype>/<etype>
+  tick <d>                                    the timer of FSM d fires;   stop   the simulation task has ended
   init                                        second initialisation pass
   ext <d> <name> <data>                       ExtEvent(d, name).send(**data)
   raw <d> <etype> <data>                      d.event(etype, **data)
@@ -31,7 +33,8 @@ def parseETToks : Nat → List String → Option (EType × List String)
   | 0, _ => Option.none
   | _, [] => Option.none
   | fuel + 1, t :: rest =>
-    if t == "0" then some (.none, rest)
+    if t.startsWith "g" && (t.drop 1).toNat?.isSome then some (.goto ((t.drop 1).toNat?.getD 0), rest)
+    else if t == "0" then some (.none, rest)
     else if t == "e" then some (.empty, rest)
     else if t == "x" then some (.nonStr, rest)
     else if t == "c" then
@@ -122,7 +125,7 @@ def resStr : Res → String
   | .exc e => "exc " ++ excStr e
 
 def itemStr : TItem → Option String
-  | .enter d k v => some ("+" ++ blockName d ++ ":" ++ toString k ++ ":" ++
+  | .enter d k v w => some ("+" ++ blockName d ++ ":" ++ toString (k + w) ++ ":" ++
       (match v with | some v => v.render | Option.none => "-"))
   | .exit d ok => some ("-" ++ blockName d ++ (if ok then "" else "!"))
   | .refused _ => Option.none
@@ -137,7 +140,10 @@ def initStr : InitSt → String
 
 def stateStr (c : Circ) (s : St) : String :=
   " ".intercalate ((List.range c.n).map fun d =>
-    (s.out d).render ++ "," ++ (if s.active d then "1" else "0") ++ "," ++ initStr (s.init d))
+    (s.out d).render ++ "," ++ (if s.active d then "1" else "0") ++ "," ++ initStr (s.init d)
+      ++ "," ++ (match s.fstate d with | some st => toString st | Option.none => "-")
+      ++ "," ++ (if (s.timer d).isSome then "T" else "-")
+      ++ (if s.fsmActive d then "A" else "") ++ (if (s.nextEv d).isSome then "N" else ""))
   ++ " err=" ++ (match s.error with | some e => excStr e | Option.none => "-")
   ++ " stk=" ++ toString s.stack.length
 
@@ -190,6 +196,33 @@ def handle (s : DState) : List String → DState × String
       | some c => ({ s with circ := c }, "ok")
       | Option.none => (s, "bad-op")
     | _, _ => (s, "bad-op")
+  | ["blk", i, "fsm", n, tr, en, ex, tm] =>
+    let parseTrans (x : String) : Option (String × Option Nat × Option Nat) :=
+      match x.splitOn ":" with
+      | [ev, fr, to] =>
+        let fr? : Option (Option Nat) := if fr == "*" then some Option.none else fr.toNat?.map some
+        let to? : Option (Option Nat) := if to == "-" then some Option.none else to.toNat?.map some
+        match fr?, to? with
+        | some f, some t => if ev.isEmpty then Option.none else some (ev, f, t)
+        | _, _ => Option.none
+      | _ => Option.none
+    let parseTimed (x : String) : Option (Option (EType × Nat)) :=
+      if x == "-" then some Option.none
+      else match x.splitOn "@" with
+        | [e, dur] => match parseET e, dur.toNat? with
+          | some e, some dur => some (some (e, dur))
+          | _, _ => Option.none
+        | _ => Option.none
+    let trs : Option (List (String × Option Nat × Option Nat)) :=
+      if tr == "-" then some [] else (tr.splitOn ",").mapM parseTrans
+    match i.toNat?, n.toNat?, trs, (en.splitOn "|").mapM parseScript, (ex.splitOn "|").mapM parseScript,
+        (tm.splitOn "|").mapM parseTimed with
+    | some i, some n, some trs, some en, some ex, some tm =>
+      match setBlk s.circ i (fun x => { x with kind := .fsm, nStates := n, trans := trs, enterS := en,
+                                               exitS := ex, timed := tm }) with
+      | some c => ({ s with circ := c }, "ok")
+      | Option.none => (s, "bad-op")
+    | _, _, _, _, _, _ => (s, "bad-op")
   | ["edge", src, slot, dest, et, fl] =>
     match src.toNat?, dest.toNat?, parseET et, parseFilters fl with
     | some src, some dest, some et, some fl =>
@@ -200,6 +233,13 @@ def handle (s : DState) : List String → DState × String
         else if slot == "x" then some (fun x => { x with extra := x.extra ++ [e] })
         else if slot == "s" then some (fun x => { x with onSuccess := x.onSuccess ++ [e] })
         else if slot == "r" then some (fun x => { x with onError := x.onError ++ [e] })
+        else if slot == "nt" then some (fun x => { x with onNotrans := x.onNotrans ++ [e] })
+        else if slot.startsWith "en" then
+          (slot.drop 2).toNat?.map fun st => fun x =>
+            { x with onEnter := (x.onEnter ++ List.replicate (st + 1 - x.onEnter.length) []).modify st (· ++ [e]) }
+        else if slot.startsWith "ex" then
+          (slot.drop 2).toNat?.map fun st => fun x =>
+            { x with onExit := (x.onExit ++ List.replicate (st + 1 - x.onExit.length) []).modify st (· ++ [e]) }
         else Option.none
       match upd with
       | some f =>
@@ -211,7 +251,7 @@ def handle (s : DState) : List String → DState × String
       | Option.none => (s, "bad-op")
     | _, _, _, _ => (s, "bad-op")
   | ["init"] =>
-    let p := initAll s.circ { s.st with trace := [] }
+    let p := startUp s.circ { s.st with trace := [] }
     -- the start-up reports `Circuit.error` (what `run_forever` raises), not the propagating exception
     let r : Res := match p.1.error with | some e => .exc e | Option.none => .ret .none
     ({ s with st := p.1 }, reply s.circ (p.1, r))
@@ -222,6 +262,16 @@ def handle (s : DState) : List String → DState × String
       let p := extSend s.circ { s.st with trace := [] } d name data
       ({ s with st := p.1 }, reply s.circ p)
     | _, _ => (s, "bad-op")
+  | ["tick", d] =>
+    match d.toNat? with
+    | some d =>
+      match tick s.circ { s.st with trace := [] } d with
+      | some p => ({ s with st := p.1 }, reply s.circ p)
+      | Option.none => (s, "no-timer")
+    | Option.none => (s, "bad-op")
+  | ["stop"] =>
+    let st := stopAll s.st
+    ({ s with st := st }, "stopped " ++ stateStr s.circ st)
   | ["raw", d, et, data] =>
     match d.toNat?, parseET et, Data.parse data with
     | some d, some et, some data =>
